@@ -395,7 +395,7 @@ impl<K1: Clone + Eq + Hash, K2: Copy + Eq + Hash, V: PartialEq> PartitionedCache
 
                     if dup_expiry == partition.next_expiry {
                         let mut new_next_expiry = expiry;
-                        for (_, e) in tuples {
+                        for (_, e) in partition.records.values().flatten() {
                             if *e < new_next_expiry {
                                 new_next_expiry = *e;
                             }
